@@ -12,6 +12,14 @@ def with2 (a b : Except Err Mesh) (f : Mesh → Mesh → String) : String :=
   | .error e, _ => e.show
   | _, .error e => e.show
 
+/-- targets of `contained_in` / `avoided_by`: `p1/c1;p2/c2;…` (`-` = none) -/
+def parseMeshes (s : String) : Option (List Mesh) :=
+  if s == "-" then some [] else
+  (s.splitOn ";").mapM fun t => match t.splitOn "/" with
+    | [p, c] => match Model.mkMesh (parseSeq p) (parseCells c) with
+      | .ok m => some m | .error _ => none
+    | _ => none
+
 def handle (op : String) (a : List String) : Option String :=
   match op, a with
   | "submesh", [p, c, idx] =>
@@ -49,6 +57,14 @@ def handle (op : String) (a : List String) : Option String :=
       (Driver.C03.parseItems its).map fun l =>
         Driver.C03.withMesh (Model.mkMesh (parseSeq q) (parseCells d)) fun μ =>
           showExcept showBool (Model.meshAvoidsAll μ l)
+  | "mmcontainedin", [it, ms] =>
+      match Driver.C03.parseItem it, parseMeshes ms with
+      | some i, some l => some (showExcept showBool (Model.containedInMeshes i l))
+      | _, _ => none
+  | "mmavoidedby", [it, ms] =>
+      match Driver.C03.parseItem it, parseMeshes ms with
+      | some i, some l => some (showExcept showBool (Model.avoidedByMeshes i l))
+      | _, _ => none
   | _, _ => none
 
 end Driver.C06
